@@ -335,7 +335,22 @@ func TestReplayC11(t *testing.T) {
 		third[2].Name = sp("x\x02\x00\x00\x00PAR1")
 		third[3].Name = sp("\xff\xff\xff\x7fPAR1")
 		all = append(all, third...)
-		file := writeFile(t, all, 3, []int{3, 3, 4}, codec)
+		// ... and trailers whose length word addresses a short fragment that starts like a
+		// thrift struct but runs into the end of the prefix (a field header announcing a
+		// string, list, struct or varint that is cut off)
+		var frags []string
+		for _, b0 := range []byte{0x15, 0x16, 0x18, 0x19, 0x1c, 0x28, 0x2c} {
+			for _, b1 := range []byte{0x08, 0x7f, 0x80, 0xff} {
+				frags = append(frags, string([]byte{b0, b1, 2, 0, 0, 0})+"PAR1")
+				frags = append(frags, string([]byte{b0, b1, 0x80, 3, 0, 0, 0})+"PAR1")
+			}
+		}
+		fourth := recs(len(frags), 7)
+		for i := range fourth {
+			fourth[i].Name = sp(frags[i])
+		}
+		all = append(all, fourth...)
+		file := writeFile(t, all, 3, []int{3, 3, 4, len(frags)}, codec)
 		for n := 0; n < len(file); n++ {
 			func() {
 				defer func() {
@@ -967,7 +982,7 @@ func TestBoundedC04(t *testing.T) {
 		}
 		// the re-encoded file is legal and holds the same content: the independent checker
 		// accepts it, and decoding it independently gives the columns of the original
-		if errs := fcheck.Check(alt, fcheck.Expect{Leaves: recLeaves, Codec: -1, PageSize: 1 << 30, Batches: batches}); len(errs) > 0 {
+		if errs := fcheck.Check(alt, fcheck.Expect{Leaves: recLeaves, Codec: -1, PageSize: 1 << 30, Batches: batches, ForeignOffsets: true}); len(errs) > 0 {
 			t.Fatalf("rewriter produced a file the independent checker rejects: %v", errs[0])
 		}
 		if d := fcheck.SameColumns(file, alt, recLeaves); d != "" {
